@@ -3,7 +3,9 @@
    copy with the generated verifier and compares canonical dumps of source and copy.
 
    request:  run <mode> <refmap 0|1> <dumps 0|1> <obj> <obj> ...
-     mode: clone | pick:<mask> | fclone:<mask> | vec:<mask>     (mask: decimal bit set over the Node fields, see FIELDS)
+     mode: clone | clonews | clonet | clonetws (N_clone_as_root, _as_root_with_size, _as_typed_root, _as_typed_root_with_size; each verified
+           with the matching N_verify_as_[typed_]root[_with_size] and read back through the matching as_[typed_]root)
+           | pick:<mask> | fclone:<mask> | vec:<mask>     (mask: decimal bit set over the Node fields, see FIELDS)
            swap:<mask>:<split>  pick the fields below bit <split>, then the idiom flatcc_builder.h documents for nested
                                 buffers: saved = set_refmap(B, &nested_map); build the `nested` field as a nested buffer
                                 (clone of the source's leaf); set_refmap(B, saved); then pick the remaining fields.
@@ -528,7 +530,7 @@ static void run(char **tok, int ntok)
     ns(Node_table_t) sroot;
     size_t mapcount = 0, nalias = 0; unsigned extra = 0, split = 0; int swap = !strncmp(mode, "swap", 4), nest_eq = 1;
     int raw = !strcmp(tok[0], "raw"), old = !strncmp(mode, "old", 3); void *raw_free = 0;
-    int nest = !strncmp(mode, "nest", 4) ? atoi(mode + 5) : 0; ns(Node_table_t) dcmp;
+    int nest = !strncmp(mode, "nest", 4) ? atoi(mode + 5) : 0, cv = 0; ns(Node_table_t) dcmp;
     if (colon) { char *e; mask = (unsigned)strtoul(colon + 1, &e, 10); if (*e == ':') split = (unsigned)strtoul(e + 1, 0, 10); }
     if (swap) mask &= ~(1u << 22);
     if (nest) mask = ~0u;
@@ -536,7 +538,7 @@ static void run(char **tok, int ntok)
     nobjs = 0; g_err = 0; g_known_max = old ? 3 : 255;
     flatcc_builder_init(&B1);
     if (raw) { src = hx_decode_aligned(tok[4], 0, &ssz, &raw_free); goto have_src; }
-    if (flatcc_builder_start_buffer(&B1, 0, 0, 0)) { printf("ERR start_buffer\n"); goto done1; }
+    if (flatcc_builder_start_buffer(&B1, ns(Node_identifier), 0, 0)) { printf("ERR start_buffer\n"); goto done1; }
     for (i = 4; i < ntok; ++i) {
         if (build_obj(&B1, tok[i], &is_node)) { printf("ERR build object %d: %s\n", i - 4, g_err ? g_err : "?"); goto done1; }
         if (is_node) root = objs[nobjs - 1].ref;
@@ -556,9 +558,11 @@ have_src:
     flatcc_builder_init(&B2); flatcc_refmap_init(&refmap);
     if (use_map) flatcc_builder_set_refmap(&B2, &refmap);
     if (!strncmp(mode, "clone", 5)) {
-        if (!ns(Node_clone_as_root(&B2, sroot))) rc = -1;
+        cv = !strcmp(mode, "clonews") ? 1 : !strcmp(mode, "clonet") ? 2 : !strcmp(mode, "clonetws") ? 3 : 0;
+        if (!(cv == 0 ? ns(Node_clone_as_root(&B2, sroot)) : cv == 1 ? ns(Node_clone_as_root_with_size(&B2, sroot))
+              : cv == 2 ? ns(Node_clone_as_typed_root(&B2, sroot)) : ns(Node_clone_as_typed_root_with_size(&B2, sroot)))) rc = -1;
     } else if (nest) {
-        if (flatbuffers_buffer_start(&B2, 0) || ns(Node_start(&B2))) rc = -2;
+        if (flatbuffers_buffer_start(&B2, ns(Node_identifier)) || ns(Node_start(&B2))) rc = -2;
         if (!rc && nest == 2 && ns(Node_nested8_start_as_root(&B2))) rc = -6;
         if (!rc && ns(Node_nested8_clone_as_root(&B2, sroot))) rc = -7;
         if (!rc && nest == 2 && ns(Node_nested8_end_as_root(&B2))) rc = -8;
@@ -566,11 +570,11 @@ have_src:
     } else if (!strncmp(mode, "oldclone", 8)) {
         if (!CO_Node_clone_as_root(&B2, (CO_Node_table_t)sroot)) rc = -1;
     } else if (old) {
-        if (flatbuffers_buffer_start(&B2, 0) || CO_Node_start(&B2)) rc = -2;
+        if (flatbuffers_buffer_start(&B2, ns(Node_identifier)) || CO_Node_start(&B2)) rc = -2;
         if (!rc) rc = op_pick_old(&B2, (CO_Node_table_t)sroot, mask);
         if (!rc && !flatbuffers_buffer_end(&B2, CO_Node_end(&B2))) rc = -3;
     } else {
-        if (flatbuffers_buffer_start(&B2, 0) || ns(Node_start(&B2))) rc = -2;
+        if (flatbuffers_buffer_start(&B2, ns(Node_identifier)) || ns(Node_start(&B2))) rc = -2;
         if (!rc) rc = swap ? op_swap(&B2, sroot, mask, split, use_map ? &refmap : 0) : !strncmp(mode, "pick", 4) ? op_pick(&B2, sroot, mask) : !strncmp(mode, "fclone", 6) ? op_fclone(&B2, sroot, mask) : op_vec(&B2, sroot, mask);
         if (!rc && !flatbuffers_buffer_end(&B2, ns(Node_end(&B2)))) rc = -3;
     }
@@ -579,9 +583,13 @@ have_src:
     if (rc) { printf("OK srcv=0 failed=%d alias=%lu size=%lu/0\n", rc, (unsigned long)nalias, (unsigned long)ssz); goto done2; }
     dst = flatcc_builder_finalize_aligned_buffer(&B2, &dsz);
     if (!dst) { printf("OK srcv=0 failed=-4 alias=%lu size=%lu/0\n", (unsigned long)nalias, (unsigned long)ssz); goto done2; }
-    dstv = old ? CO_Node_verify_as_root(dst, dsz) : ns(Node_verify_as_root(dst, dsz));
+    dstv = old ? CO_Node_verify_as_root(dst, dsz) : cv == 1 ? ns(Node_verify_as_root_with_size(dst, dsz)) : cv == 2 ? ns(Node_verify_as_typed_root(dst, dsz))
+         : cv == 3 ? ns(Node_verify_as_typed_root_with_size(dst, dsz)) : ns(Node_verify_as_root(dst, dsz));
     if (dstv) { printf("OK srcv=0 dstv=%d alias=%lu size=%lu/%lu (%s)\n", dstv, (unsigned long)nalias, (unsigned long)ssz, (unsigned long)dsz, flatcc_verify_error_string(dstv)); goto done2; }
-    dcmp = ns(Node_as_root(dst));
+    {   /* read back through the matching entry point (null when the identifier does not match) */
+        void *body = (cv & 1) ? flatbuffers_read_size_prefix(dst, 0) : dst;
+        dcmp = (cv & 2) ? ns(Node_as_typed_root(body)) : ns(Node_as_root(body));
+    }
     if (nest) { int l; for (l = 0; l < nest && dcmp; ++l) dcmp = ns(Node_nested8_is_present(dcmp)) ? ns(Node_nested8_as_root(dcmp)) : 0; }
     if (!dcmp) { printf("OK srcv=0 failed=-9 alias=%lu size=%lu/%lu\n", (unsigned long)nalias, (unsigned long)ssz, (unsigned long)dsz); goto done2; }
     d_node(&vs, 0, sroot, mask); d_node(&vd, 0, dcmp, mask);
